@@ -361,7 +361,7 @@ class Gen:
                 s = St(nid(), kind, p); p.children.append(s); allst.append(s)
                 if kind == 'parallel' or (kind == 'state' and depth < 3 and rng.random() < 0.45 and budget[0] > 0):
                     grow(s, depth + 1)
-            if p.kind == 'state' and p.states() and rng.random() < 0.4:
+            if (p.kind == 'state' and p.states() and rng.random() < 0.4) or (p.kind == 'parallel' and rng.random() < 0.25):
                 h = St(nid('h'), 'history', p, rng.choice(['shallow', 'deep']))
                 p.children.insert(rng.randint(0, len(p.children)), h); allst.append(h)
         grow(root, 0)
@@ -513,7 +513,7 @@ def family_E(max_states=3, max_trans=2, with_history=True):
             if hist or not proper: return False
             if all(t[0] == 'final' for t in proper): return False
         elif parent_kind == 'parallel':
-            if len(proper) < 1 or hist: return False
+            if len(proper) < 1 or len(hist) > 1: return False
             if any(t[0] == 'final' for t in proper): return False
         elif parent_kind == 'state':
             if hist and not proper: return False
